@@ -50,7 +50,10 @@ Record side := {
   sd_skip : list str;     (* keys excluded by a loop filter / an `if key != ...` around the body *)
   sd_name : str;          (* canonical text of the expression that renders the symbol name from `key` *)
   sd_value : str;         (* canonical text of the expression that renders the number from `value` *)
-  sd_unless_omit : bool   (* loop wrapped in `if not nunavut.support.omit` *)
+  sd_unless_omit : bool;  (* loop wrapped in `if not nunavut.support.omit` *)
+  sd_keyset : option str  (* symbol that carries the fingerprint of the option KEY SET
+                             (`options.keys() | sort(case_sensitive=true) | join(",") | to_static_assertion_value`),
+                             defined by the support header / asserted by the type header; None = not present *)
 }.
 
 (* A rendered symbol: the expression it was rendered with, and the key.  Two symbols are the
@@ -78,7 +81,36 @@ Fixpoint map_opt {A B : Type} (f : A -> option B) (l : list A) : option (list B)
 
 Inductive diag :=
 | Mismatch (k : str)     (* "static assertion failed: ... different language options ..." on the assert of key k *)
-| Undeclared (k : str).  (* the symbol of key k is not defined by the support header *)
+| Undeclared (k : str)   (* the symbol of key k is not defined by the support header *)
+| KeySetMismatch         (* the assertion on the key-set fingerprint fails (same message) *)
+| KeySetUndeclared.      (* the type header asserts a key-set symbol the support header does not define *)
+
+(* code-point lexicographic order = Python's order on str (Jinja `sort(case_sensitive=true)`) *)
+Fixpoint str_leb (a b : str) : bool :=
+  match a, b with
+  | [], _ => true
+  | _ :: _, [] => false
+  | x :: a', y :: b' => if x <? y then true else if y <? x then false else str_leb a' b'
+  end.
+Fixpoint insert_str (x : str) (l : list str) : list str :=
+  match l with
+  | [] => [x]
+  | y :: l' => if str_leb x y then x :: l else y :: insert_str x l'
+  end.
+Fixpoint isort (l : list str) : list str :=
+  match l with [] => [] | x :: l' => insert_str x (isort l') end.
+Fixpoint join_comma (l : list str) : str :=
+  match l with
+  | [] => []
+  | x :: l' => match l' with [] => x | _ => x ++ 44 :: join_comma l' end
+  end.
+Fixpoint list_str_eqb (a b : list str) : bool :=
+  match a, b with
+  | [], [] => true
+  | x :: a', y :: b' => str_eqb x y && list_str_eqb a' b'
+  | _, _ => false
+  end.
+Definition keyset_text (o : list (str * oval)) : str := join_comma (isort (map fst o)).
 
 Section Model.
   (* the value filter; instantiated with Gen_OptGuard.sav (translated from lang/c/__init__.py) *)
@@ -110,11 +142,41 @@ Section Model.
   Definition compiles_together (sup typ : side) (o_s o_t : opts) : bool :=
     match compile sup typ o_s o_t with Some [] => true | _ => false end.
 
+  (* the key-set fingerprint (present only in a tree that has the F-OPTGUARD-KEYSET fix) *)
+  Definition keyfp (o : opts) : option Z := sav (VStr (keyset_text o)).
+
+  Definition keyset_diags (sup typ : side) (o_s o_t : opts) : option (list diag) :=
+    match sd_keyset typ with
+    | None => Some []
+    | Some nt =>
+        match sd_keyset sup with
+        | None => Some [KeySetUndeclared]
+        | Some ns =>
+            if str_eqb ns nt then
+              match keyfp o_s, keyfp o_t with
+              | Some a, Some b => Some (if Z.eqb a b then [] else [KeySetMismatch])
+              | _, _ => None
+              end
+            else Some [KeySetUndeclared]
+        end
+    end.
+
+  (* everything one type header reports: key-set assertion first, then the per-option assertions *)
+  Definition compile_full (sup typ : side) (o_s o_t : opts) : option (list diag) :=
+    match keyset_diags sup typ o_s o_t, compile sup typ o_s o_t with
+    | Some a, Some b => Some (a ++ b)
+    | _, _ => None
+    end.
+
+  Definition compiles_together_full (sup typ : side) (o_s o_t : opts) : bool :=
+    match compile_full sup typ o_s o_t with Some [] => true | _ => false end.
+
   (* type headers generated with --omit-serialization-support: no support header is included *)
   Definition compile_omit (typ : side) (o_t : opts) : option (list diag) :=
     if sd_unless_omit typ then Some []
     else match rendered typ o_t with
-         | Some asserts => Some (map (fun a => Undeclared (snd (fst a))) asserts)
+         | Some asserts => Some ((match sd_keyset typ with Some _ => [KeySetUndeclared] | None => [] end)
+                                 ++ map (fun a => Undeclared (snd (fst a))) asserts)
          | None => None
          end.
 End Model.
@@ -159,5 +221,22 @@ Definition sides_agree (sup typ : side) : bool :=
   str_eqb (sd_iter sup) (sd_iter typ) && str_eqb (sd_name sup) (sd_name typ) && str_eqb (sd_value sup) (sd_value typ)
   && match sd_skip sup, sd_skip typ with [], [] => true | _, _ => false end.
 
-Definition diag_key (d : diag) : str := match d with Mismatch k => k | Undeclared k => k end.
+Definition diag_key (d : diag) : str := match d with Mismatch k => k | Undeclared k => k | _ => [] end.
+
+(* both sides carry the key-set fingerprint under the same symbol *)
+Definition keyset_guarded (sup typ : side) : bool :=
+  match sd_keyset sup, sd_keyset typ with Some a, Some b => str_eqb a b | _, _ => false end.
+Definition keyset_absent (sup typ : side) : bool :=
+  match sd_keyset sup, sd_keyset typ with None, None => true | _, _ => false end.
+
+(* finite checker: the fingerprint is defined and injective on the documented key sets *)
+Definition keysets_ok (sav : oval -> option Z) (kss : list (list str)) : bool :=
+  let S := map isort kss in
+  forallb (fun a => match sav (VStr (join_comma a)) with
+                    | None => false
+                    | Some z => forallb (fun b => list_str_eqb a b
+                                                  || negb (match sav (VStr (join_comma b)) with Some z' => Z.eqb z z' | None => false end)) S
+                    end) S.
+Definition keys_documentedb (kss : list (list str)) (o : opts) : bool :=
+  existsb (list_str_eqb (isort (map fst o))) (map isort kss).
 Definition is_mismatch (d : diag) : bool := match d with Mismatch _ => true | _ => false end.
